@@ -89,9 +89,14 @@ def run(ctx):
     pool = vlib.WorkerPool(ctx, sbin)
     try:
         ks = [8, 12, 0, 0] if ctx.quick() else [6, 8, 10, 12, 16, 24, 0, 0, 0, 0]
-        agg = storelib.random_runs(ctx, pool, cov, [dict(seed=ctx.seed * 1000 + 500 + i, n=(200 if ctx.quick() else 500), caps=([] if k else [3, 3]), cache=k,
-                                                         pcrash=(0 if k else 0.04), pflush=(0 if k else 0.2), wal=False, maxrows=(30 if k else 5),
-                                                         bias=("grow" if k else "")) for i, k in enumerate(ks)])
+        runs = [dict(seed=ctx.seed * 1000 + 500 + i, n=(200 if ctx.quick() else 500), caps=([] if k else [3, 3]), cache=k,
+                     pcrash=(0 if k else 0.04), pflush=(0 if k else 0.2), wal=False, maxrows=(30 if k else 5),
+                     bias=("grow" if k else "")) for i, k in enumerate(ks)]
+        # statements that log far more records than any batch size an implementation may have (INSERTs of up to 150 rows, UPDATEs
+        # and DELETEs over as many): the shared lock is held from the first stamp to the last log record all the same
+        runs += [dict(seed=ctx.seed * 1000 + 560 + i, n=(70 if ctx.quick() else 200), caps=[], cache=0, pcrash=0, pflush=0.2, wal=False, maxrows=150, bias="")
+                 for i in range(1 if ctx.quick() else 3)]
+        agg = storelib.random_runs(ctx, pool, cov, runs)
         cov["order_events_accepted_by_walorder"] = agg.get("order_events_accepted_by_walorder", 0)
     finally:
         pool.close()
